@@ -690,6 +690,19 @@ class DialectKWArgs:
         if not kwargs:
             return
 
+        if "dialect_options" in self.__dict__:
+            # the collection may be shared with the statement this one was
+            # generated from (a plain memoized attribute is copied along
+            # with __dict__); never write into the parent's options
+            existing = self.__dict__["dialect_options"]
+            self.dialect_options = copied = util.PopulateDict(
+                self._kw_reg_for_dialect_cls
+            )
+            for dialect_name, args in existing.items():
+                copied[dialect_name] = new_args = _DialectArgDict()
+                new_args._non_defaults.update(args._non_defaults)
+                new_args._defaults.update(args._defaults)
+
         for k in kwargs:
             m = re.match("^(.+?)_(.+)$", k)
             if not m:
